@@ -45,11 +45,14 @@ prop("C17", ["contracts.c10_network", "contracts.c11_nmt", "contracts.c17_period
      not_decided=["real-time behaviour of the transmitting thread"])
 
 prop("C19", ["contracts.c19_p402"],
-     ["StateDecode", "NextState", "NextStateRefused", "ChangeState", "SetState", "SetStateAuto", "OpModeSet"],
+     ["StateDecode", "NextState", "NextStateRefused", "ChangeState", "SetState", "SetStateAuto", "SetStatePdo", "OpModeSet"],
      assumed=["conformant CiA 402 drive (env/drive402.py): reacts to a controlword with the transition CiA 402 defines for its "
               "current state, reports any statusword matching its state's bit pattern, displays the mode it was given",
-              "controlword/statusword carried by SDO objects (the PDO transport reads a cached value and is not modelled)"],
-     not_decided=["time-outs in real time; controlword/statusword carried by PDO (cached TPDO value, wait_for_reception)"])
+              "controlword/statusword carried by SDO objects, or (SetStatePdo) by an RPDO / TPDO pair over env/drive402.py PdoLink: the RPDO "
+              "reaches the drive at transmit() (event-driven) or before the next TPDO (periodic), every TPDO reception runs the node's "
+              "on_TPDOs_update_callback; the cached statusword is current when the assignment starts"],
+     not_decided=["time-outs in real time; automatic transitions with the PDO transport; a stale cached statusword at the start of an "
+                  "assignment (PDO transport); operation mode carried by PDO"])
 
 prop("C18", ["contracts.c18_lss"],
      ["LssNoReplyServices", "LssConfigure", "LssInquire", "LssSendAddress", "LssSwitchSelective", "LssFastScanMessage", "LssFastScan", "LssFastScanTwice", "LssStaleReplies"],
